@@ -76,7 +76,9 @@ impl Length for Tlv {
                 }
             }
             0x82 => {
-                let bytes: [u8; 2] = data[1..3]
+                let bytes: [u8; 2] = data
+                    .get(1..3)
+                    .ok_or(ZVTError::IncompleteData)?
                     .try_into()
                     .map_err(|_| ZVTError::IncompleteData)?;
                 Ok((u16::from_be_bytes(bytes) as usize, &data[3..]))
